@@ -273,6 +273,24 @@ def sc_tables(V, P, cfg):
                 for q in range(ndof):
                     ref[e, l * ndof + q] = conn_ref[e, l] * ndof + q
         K.table("dofconn-ndof%d" % ndof, d.get_dofconnectivity(ndof), ref, "dofconn-table")
+    # index arrays of any rank ("can be integer or array"): 1-D lists of elements and meshgrid-style selections; the result
+    # has the shape of the index arrays plus one axis for the element's nodes
+    ar = [np.arange(c) for c in cnt]
+    grids = np.meshgrid(*ar, indexing="ij")
+    sel = d.get_elemconnectivity(*grids)
+    K.holds("elemconnectivity(meshgrid).shape", tuple(np.shape(sel)) == tuple(cnt) + (en,), "conn-array-index")
+    if tuple(np.shape(sel)) == tuple(cnt) + (en,):
+        want = np.zeros(tuple(cnt) + (en,), dtype=int)
+        for idx in np.ndindex(*cnt):
+            i3 = list(idx) + [0] * (3 - dim)
+            want[idx] = conn_ref[elements_ref[i3[0], i3[1], i3[2]]]
+        K.table("elemconnectivity(meshgrid)", sel, want, "conn-array-index")
+    flat = [g.ravel() for g in grids]
+    sel1 = d.get_elemconnectivity(*flat)
+    K.holds("elemconnectivity(1-D).shape", tuple(np.shape(sel1)) == (nel, en), "conn-array-index")
+    if tuple(np.shape(sel1)) == (nel, en):
+        want1 = np.array([conn_ref[elements_ref[tuple(list(t) + [0] * (3 - dim))]] for t in zip(*flat)])
+        K.table("elemconnectivity(1-D)", sel1, want1, "conn-array-index")
     # all node positions == Cartesian index * element size
     pos = d.get_node_position()
     pos_ref = np.empty((dim, nnodes), dtype=object if V.symbolic else float)
